@@ -42,6 +42,7 @@ import (
 	"flag"
 	"fmt"
 	"log"
+	"math"
 	"strings"
 	"sync"
 	"time"
@@ -78,8 +79,13 @@ func (t timeResult) worstCaseDrift() time.Duration {
 	if drift < 0 {
 		drift = -drift
 	}
-	drift += t.End.Sub(t.Start)
-	return drift
+	rtt := t.End.Sub(t.Start)
+	// time.Time.Sub saturates for clocks which are centuries apart: do not
+	// let the negation or the addition wrap around into a small value.
+	if drift < 0 || rtt < 0 || drift > math.MaxInt64-rtt {
+		return math.MaxInt64
+	}
+	return drift + rtt
 }
 
 func getServerTime(server, networkPassword string) (timeResult, health.ServerStatus, error) {
